@@ -23,7 +23,7 @@ ID = "C15"
 LEVEL = "model_checking"
 MIN_OUTCOMES = 3
 MANIFEST = {
-    'text': 'For every pattern of the grammar set and every covering state whose version text is PEP 440-valid, the text the real code renders for {pep440_version} is parsed by packaging and must equal the version (release, pre/post/dev kind and number), match the derived search pattern in full, agree with to_pep440/`PEP440` line, and be in the README normal form; on README/core patterns the same is observed in files written by `update` and in `test` output, and in `show` when the current version comes from a VCS tag that is ahead of the config.',
+    'text': 'For every pattern of the grammar set and every covering state whose version text is PEP 440-valid, the text the real code renders for {pep440_version} is parsed by packaging and must equal the version (release, pre/post/dev kind and number), match the derived search pattern in full, agree with to_pep440/`PEP440` line, and be in the README normal form; on README/core patterns the same is observed in files written by `update` (one occurrence per line, both placeholders in one pattern, four occurrences on one line; one transition ends in the tag `preview`) and in `test` output, and in `show` when the current version comes from a VCS tag that is ahead of the config.',
     'note': 'separators other than . - _ and none are outside G; versions that are not PEP 440 are out of scope (counted)',
     'technique': 'explicit-state exploration of (pattern, state) space on the real code against packaging.version as reference',
 }
@@ -187,7 +187,10 @@ CFG = (
     '"bumpver.toml" = [\'current_version = "{{version}}"\']\n"a.txt" = ["ver={{version}};", "pep={{pep440_version}};"]\n'
     # (both placeholders inside ONE search pattern, as in a download URL)
     '"c.txt" = ["get/{{version}}/demo-{{pep440_version}}.tgz"]\n'
+    # (several occurrences of both texts on ONE line: replacements that change the length shift the later ones)
+    '"d.txt" = ["ver={{version}};", "pep={{pep440_version}};"]\n'
 )
+DLINE = "ver={v}; and ver={v}; then pep={w}; and pep={w}; end\n"
 
 
 def cli_check(st, pat):
@@ -195,6 +198,12 @@ def cli_check(st, pat):
               if M.recognise(pat.tree, M.render(pat.tree, s)) == s and not all(M.is_zero(n, s) for n in pat.names)]
     prev = None
     shape = shape_of(pat)
+    if "TAG" in pat.names:
+        # TAG also accepts `preview` (PEP 440: rc): make sure one transition ENDS in it, from the alpha state with the same numbers
+        for i, s_ in enumerate(states):
+            if s_.get("tag") == "alpha":
+                states.insert(i + 1, dict(s_, tag="preview"))
+                break
     for state in states:
         tmp = Stats()
         r = lib_check(tmp, pat, state)
@@ -206,7 +215,7 @@ def cli_check(st, pat):
             ov, ow = prev
             world.clear_dir(".")
             world.write_tree({"bumpver.toml": CFG.format(v=ov, p=pat.text).encode(), "a.txt": f"ver={ov};\npep={ow};\n".encode(),
-                              "c.txt": f"get/{ov}/demo-{ow}.tgz\n".encode()})
+                              "c.txt": f"get/{ov}/demo-{ow}.tgz\n".encode(), "d.txt": DLINE.format(v=ov, w=ow).encode()})
             o = world.cli("update", "--no-fetch", "--ignore-vcs-tag", "--set-version", v)
             st.evaluations += 1
             st.transitions += 1
@@ -230,6 +239,16 @@ def cli_check(st, pat):
                     okc = False
                 if not okc:
                     st.violation(f"C15:file-written-by-update:both-placeholders-in-one-pattern:{shape}", case, {"file": cbody, "expected_pep440": w})
+                    st.outcomes["violation"] += 1
+                dbody = world.read_tree(".")["d.txt"].decode("utf-8", "replace")
+                md = re.fullmatch(r"ver=(.*?); and ver=(.*?); then pep=(.*?); and pep=(.*?); end\n", dbody)
+                try:
+                    okd = bool(md) and md.group(1) == v and md.group(2) == v and all(
+                        pv.Version(g) == pv.Version(v) and normal_form_problem(g, pv.Version(v)) is None for g in (md.group(3), md.group(4)))
+                except pv.InvalidVersion:
+                    okd = False
+                if not okd:
+                    st.violation(f"C15:file-written-by-update:several-occurrences-on-one-line:{shape}", case, {"file": dbody, "expected_pep440": w})
                     st.outcomes["violation"] += 1
                 if not ok or (m and m.group(1) != v):
                     st.violation(f"C15:file-written-by-update:{shape}", case, {"file": body, "expected_pep440": w})
@@ -261,7 +280,7 @@ def cli_check(st, pat):
 
                 world.clear_dir(".")
                 world.write_tree({"bumpver.toml": CFG.format(v=ov, p=pat.text).encode(), "a.txt": f"ver={ov};\npep={ow};\n".encode(),
-                                  "c.txt": f"get/{ov}/demo-{ow}.tgz\n".encode()})
+                                  "c.txt": f"get/{ov}/demo-{ow}.tgz\n".encode(), "d.txt": DLINE.format(v=ov, w=ow).encode()})
                 os.mkdir(".git")
                 fakevcs.install(fakevcs.FakeVCS("git", tags_all=[ov, v], tags_merged=[ov, v], status=[]))
                 try:
@@ -295,7 +314,7 @@ def cli_check(st, pat):
                 continue
             world.clear_dir(".")
             world.write_tree({"bumpver.toml": CFG.format(v=ov, p=pat.text).encode(), "a.txt": f"ver={ov};\npep={ow};\n".encode(),
-                              "c.txt": f"get/{ov}/demo-{ow}.tgz\n".encode()})
+                              "c.txt": f"get/{ov}/demo-{ow}.tgz\n".encode(), "d.txt": DLINE.format(v=ov, w=ow).encode()})
             o = world.cli("update", "--no-fetch", "--ignore-vcs-tag", "--date", "2035-01-01", *flags)
             st.evaluations += 1
             st.transitions += 1
